@@ -323,6 +323,54 @@ func c18Sequential(c *core.Ctx) {
 		}
 	})
 	c.Section("list-purity", c.N(20000, 1000000), c18ListPurity)
+	// a result the caller kept (a by-value copy of the decoded packet, the slice returned by
+	// DestinationSSRC) must not change when the same variable is decoded into again
+	c.Section("retained-results", c.N(60000, 3000000), func(cs *core.Case) {
+		r := cs.R
+		k := gen.Kind(cs.Idx % uint64(gen.NumKinds))
+		if k == gen.TWCC {
+			// TransportLayerCC.Unmarshal into a used variable re-reads every *RecvDelta it already
+			// holds (they are pointers shared with the caller's copy): the unchanged library does not
+			// offer this guarantee for that type, so it is not demanded
+			return
+		}
+		enc := func() []byte {
+			v := gen.Packet(r, k, gen.Opts{Small: true, NoBig: true})
+			if e, err := ref.Encode(v, ref.Lib); err == nil {
+				return e.B
+			}
+			return nil
+		}
+		a, b := enc(), enc()
+		if a == nil || b == nil {
+			return
+		}
+		v := gen.New(k)
+		var err error
+		if pan, _, _ := core.Guard(func() { err = v.Unmarshal(cloneBytes(a)) }); pan || err != nil {
+			return
+		}
+		snap := clonePacket(v)
+		kept := reflect.New(reflect.TypeOf(v).Elem())
+		kept.Elem().Set(reflect.ValueOf(v).Elem()) // what `first := *v` gives the caller
+		var dest []uint32
+		core.Guard(func() { dest = v.DestinationSSRC() })
+		destSnap := append([]uint32(nil), dest...)
+		var err2 error
+		if pan, val, st := core.Guard(func() { err2 = v.Unmarshal(cloneBytes(b)) }); pan {
+			cs.Fail("panic/Unmarshal", core.W{"type": k.String(), "first_hex": mon.Hex(a, 200), "second_hex": mon.Hex(b, 200), "panic": val, "stack": st})
+			return
+		}
+		cs.Eval(3)
+		cs.Count("retained/" + k.String())
+		cs.Distinct(core.Digest([]byte("ret"), a, b))
+		det := func() core.W {
+			return core.W{"type": k.String(), "first_datagram_hex": mon.Hex(a, 200), "second_datagram_hex": mon.Hex(b, 200), "second_error": errStr(err2),
+				"kept_copy_before": vdump(snap), "kept_copy_after": vdump(kept.Interface()), "destination_ssrc_before": destSnap, "destination_ssrc_after": dest}
+		}
+		cs.Check(mon.SemEqual(kept.Interface(), snap), "history/retained-packet-changed/"+k.String(), det)
+		cs.Check(mon.SemEqual(dest, destSnap), "history/retained-destination-ssrc-changed/"+k.String(), det)
+	})
 	c.Section("histories", c.N(40000, 2000000), func(cs *core.Case) {
 		r := cs.R
 		n := 1 + r.Intn(4)
